@@ -25,6 +25,7 @@ Inductive follows : list reply -> list logent -> list reply -> Prop :=
 | fol_nil : forall orc, follows orc [] orc
 | fol_cons : forall orc e l orc',
     eout e = honoured (ecall e) (rout (fst (pop orc))) ->
+    eval e = val_of (ecall e) (eout e) (rval (fst (pop orc))) ->
     follows (snd (pop orc)) l orc' -> follows orc (e :: l) orc'.
 
 Lemma follows_app : forall a l1 b l2 c, follows a l1 b -> follows b l2 c -> follows a (l1 ++ l2) c.
@@ -36,20 +37,21 @@ Definition own (t : nat) (cn : Z) (l : list logent) : Prop :=
 Lemma own_app : forall t cn l1 l2, own t cn l1 -> own t cn l2 -> own t cn (l1 ++ l2).
 Proof. intros. apply Forall_app. split; assumption. Qed.
 
-Lemma drv_spec : forall t cn c orc o b l orc',
-  drv t cn c orc = (o, b, l, orc') ->
-  l = [mkEnt t cn c o] /\ o = honoured c (rout (fst (pop orc))) /\ orc' = snd (pop orc).
+Lemma drv_spec : forall t cn c orc o v b l orc',
+  drv t cn c orc = (o, v, b, l, orc') ->
+  l = [mkEnt t cn c o v] /\ o = honoured c (rout (fst (pop orc))) /\ orc' = snd (pop orc) /\
+  v = val_of c o (rval (fst (pop orc))).
 Proof.
-  unfold drv. intros t cn c orc o b l orc' H. destruct (pop orc) as [r orc1]. cbn in *.
+  unfold drv. intros t cn c orc o v b l orc' H. destruct (pop orc) as [r orc1]. cbn in *.
   inversion H; subst. auto.
 Qed.
 
-Lemma drv_own_follows : forall t cn c orc o b l orc',
-  drv t cn c orc = (o, b, l, orc') -> own t cn l /\ follows orc l orc'.
+Lemma drv_own_follows : forall t cn c orc o v b l orc',
+  drv t cn c orc = (o, v, b, l, orc') -> own t cn l /\ follows orc l orc'.
 Proof.
-  intros t cn c orc o b l orc' H. destruct (drv_spec _ _ _ _ _ _ _ _ H) as (-> & -> & ->). split.
+  intros t cn c orc o v b l orc' H. destruct (drv_spec _ _ _ _ _ _ _ _ _ H) as (-> & Ho & -> & Hv). split.
   - repeat constructor.
-  - constructor; [reflexivity | constructor].
+  - constructor; [exact Ho | exact Hv | constructor].
 Qed.
 
 Lemma honoured_not_end : forall c o, is_end c = false -> honoured c o <> OPanic.
@@ -91,10 +93,10 @@ Proof.
     specialize (H1 _ Hx). specialize (H2 _ Hy). cbn beta in *. lia.
 Qed.
 
-Lemma drv_stmt_at : forall t cn k kd orc o b l orc',
-  drv t cn (CStmt k kd) orc = (o, b, l, orc') -> stmts_at k l /\ o <> OPanic.
+Lemma drv_stmt_at : forall t cn k kd orc o v b l orc',
+  drv t cn (CStmt k kd) orc = (o, v, b, l, orc') -> stmts_at k l /\ o <> OPanic.
 Proof.
-  intros t cn k kd orc o b l orc' H. destruct (drv_spec _ _ _ _ _ _ _ _ H) as (-> & -> & _). split.
+  intros t cn k kd orc o v b l orc' H. destruct (drv_spec _ _ _ _ _ _ _ _ _ H) as (-> & -> & _). split.
   - split.
     + constructor; [|constructor]. cbn. split; [reflexivity|]. unfold skey. cbn. destruct kd; lia.
     + constructor; constructor.
@@ -106,22 +108,22 @@ Lemma do_stmt_spec : forall t cn k m sees orc r l orc1 c,
   own t cn l /\ follows orc l orc1 /\ stmts_at k l /\ r <> SPanic.
 Proof.
   intros t cn k m sees orc r l orc1 c H. unfold do_stmt in H. destruct m.
-  - destruct (drv t cn (CStmt k KExec) orc) as [[[o b] l0] o1] eqn:E. inversion H; subst.
-    destruct (drv_own_follows _ _ _ _ _ _ _ _ E) as [Ho Hf]. destruct (drv_stmt_at _ _ _ _ _ _ _ _ _ E) as [Hs _].
+  - destruct (drv t cn (CStmt k KExec) orc) as [[[[o v] b] l0] o1] eqn:E. inversion H; subst.
+    destruct (drv_own_follows _ _ _ _ _ _ _ _ _ E) as [Ho Hf]. destruct (drv_stmt_at _ _ _ _ _ _ _ _ _ _ E) as [Hs _].
     repeat split; auto; try apply Hs. unfold res_of. destruct o; discriminate.
-  - destruct (drv t cn (CStmt k KQuery) orc) as [[[o b] l0] o1] eqn:E. inversion H; subst.
-    destruct (drv_own_follows _ _ _ _ _ _ _ _ E) as [Ho Hf]. destruct (drv_stmt_at _ _ _ _ _ _ _ _ _ E) as [Hs _].
+  - destruct (drv t cn (CStmt k KQuery) orc) as [[[[o v] b] l0] o1] eqn:E. inversion H; subst.
+    destruct (drv_own_follows _ _ _ _ _ _ _ _ _ E) as [Ho Hf]. destruct (drv_stmt_at _ _ _ _ _ _ _ _ _ _ E) as [Hs _].
     repeat split; auto; try apply Hs. unfold res_of. destruct o; discriminate.
-  - destruct (drv t cn (CStmt k KPrepare) orc) as [[[o b] l0] o1] eqn:E.
-    destruct (drv_own_follows _ _ _ _ _ _ _ _ E) as [Ho Hf]. destruct (drv_stmt_at _ _ _ _ _ _ _ _ _ E) as [Hs _].
+  - destruct (drv t cn (CStmt k KPrepare) orc) as [[[[o v] b] l0] o1] eqn:E.
+    destruct (drv_own_follows _ _ _ _ _ _ _ _ _ E) as [Ho Hf]. destruct (drv_stmt_at _ _ _ _ _ _ _ _ _ _ E) as [Hs _].
     assert (Hdone : forall r', (r', l0, o1, b) = (r, l, orc1, c) -> r' <> SPanic ->
                       own t cn l /\ follows orc l orc1 /\ stmts_at k l /\ r <> SPanic).
     { intros r' Heq Hr. inversion Heq; subst. repeat split; auto; apply Hs. }
     destruct o; try (apply (Hdone _ H); discriminate).
     destruct (sees && b); [apply (Hdone _ H); discriminate|].
-    destruct (drv t cn (CStmt k KStmtExec) o1) as [[[o2 b2] l2] o2'] eqn:E2. inversion H; subst.
-    destruct (drv_own_follows _ _ _ _ _ _ _ _ E2) as [Ho2 Hf2].
-    destruct (drv_spec _ _ _ _ _ _ _ _ E) as (El0 & _ & _). destruct (drv_spec _ _ _ _ _ _ _ _ E2) as (El2 & _ & _).
+    destruct (drv t cn (CStmt k KStmtExec) o1) as [[[[o2 v2] b2] l2] o2'] eqn:E2. inversion H; subst.
+    destruct (drv_own_follows _ _ _ _ _ _ _ _ _ E2) as [Ho2 Hf2].
+    destruct (drv_spec _ _ _ _ _ _ _ _ _ E) as (El0 & _ & _). destruct (drv_spec _ _ _ _ _ _ _ _ _ E2) as (El2 & _ & _).
     repeat split.
     + apply own_app; assumption.
     + eapply follows_app; eassumption.
@@ -132,10 +134,10 @@ Qed.
 
 (* ---- ending ------------------------------------------------------------------------- *)
 (* the result of an end call, read off its log entry *)
-Definition xres (c : call) (o : outcome) : endres :=
+Definition xres (c : call) (o : outcome) (v : errval) : endres :=
   match o with
   | OOk => XOk
-  | OFail => XErr (if is_commit c then DrvCommit else DrvRollback)
+  | OFail => XErr (if is_commit c then DrvCommit v else DrvRollback v)
   | OPanic => XPanic
   end.
 
@@ -163,8 +165,8 @@ Proof.
   destruct done.
   - inversion H; subst. split; [constructor|]. split; [constructor|]. split; [reflexivity|].
     split; [auto | discriminate].
-  - destruct (drv t cn (if commit then CCommit else CRollback) orc) as [[[o b] l0] o1] eqn:E.
-    destruct (drv_own_follows _ _ _ _ _ _ _ _ E) as [Ho Hf]. destruct (drv_spec _ _ _ _ _ _ _ _ E) as (El0 & _ & _).
+  - destruct (drv t cn (if commit then CCommit else CRollback) orc) as [[[[o v] b] l0] o1] eqn:E.
+    destruct (drv_own_follows _ _ _ _ _ _ _ _ _ E) as [Ho Hf]. destruct (drv_spec _ _ _ _ _ _ _ _ _ E) as (El0 & _ & _).
     assert (Hend : is_end (if commit then CCommit else CRollback) = true) by (destruct commit; reflexivity).
     destruct o; inversion H; subst; (split; [exact Ho|]; split; [exact Hf|]; split; [reflexivity|];
       split; [discriminate|]; intros _;
@@ -214,12 +216,12 @@ Lemma finish_spec : forall rf g t sc done o orc st' l orc1 leak,
   own t (sconn sc) l /\ follows orc l orc1 /\
   (done = true -> l = [] /\ st' = TDone (mkRes 1 (Some o) (rf o (XErr TxDone)) true) /\ leak = false) /\
   (done = false -> exists e, l = [e] /\ ecall e = end_call_of g o /\
-     st' = TDone (mkRes 1 (Some o) (rf o (xres (ecall e) (eout e))) false) /\ leak = lostb e).
+     st' = TDone (mkRes 1 (Some o) (rf o (xres (ecall e) (eout e) (eval e))) false) /\ leak = lostb e).
 Proof.
   intros rf g t sc done o orc st' l orc1 leak H. unfold finish_with, try_end in H. destruct done.
   - inversion H; subst. split; [constructor|]. split; [constructor|]. split; [auto | discriminate].
-  - destruct (drv t (sconn sc) (end_call_of g o) orc) as [[[o0 b] l0] o1] eqn:E.
-    destruct (drv_own_follows _ _ _ _ _ _ _ _ E) as [Ho Hf]. destruct (drv_spec _ _ _ _ _ _ _ _ E) as (El0 & _ & _).
+  - destruct (drv t (sconn sc) (end_call_of g o) orc) as [[[[o0 v0] b] l0] o1] eqn:E.
+    destruct (drv_own_follows _ _ _ _ _ _ _ _ _ E) as [Ho Hf]. destruct (drv_spec _ _ _ _ _ _ _ _ _ E) as (El0 & _ & _).
     inversion H; subst. split; [exact Ho|]. split; [exact Hf|]. split; [discriminate|]. intros _.
     eexists. split; [reflexivity|]. cbn [ecall eout]. split; [reflexivity|].
     pose proof (end_call_is_end g o) as He.
@@ -249,11 +251,11 @@ Definition tinv (rf : bout -> endres -> ret) (g : bool) (sc : script) (st : tsta
   | TDone r =>
     (tr = [] /\ let_through sc = false /\ r = mkRes 0 None (RetErr (refusal sc)) false) \/
     (exists b, tr = [b] /\ ecall b = CBegin /\ eout b <> OOk /\ let_through sc = true /\
-               r = mkRes 0 None (RetErr EBegin) false) \/
+               r = mkRes 0 None (RetErr (EBegin (eval b))) false) \/
     (exists b S e o,
        tr = b :: S ++ [e] /\ begin_ok b /\ stmts_lt (nsteps sc) S /\ ent_end e = true /\
        let_through sc = true /\
-       ((r = mkRes 1 (Some o) (rf o (xres (ecall e) (eout e))) false /\ ecall e = end_call_of g o) \/
+       ((r = mkRes 1 (Some o) (rf o (xres (ecall e) (eout e) (eval e))) false /\ ecall e = end_call_of g o) \/
         (r = mkRes 1 (Some o) (rf o (XErr TxDone)) true /\ self_free sc = false)))
   end.
 
@@ -302,53 +304,58 @@ Proof.
   apply andb_true_iff in H. destruct H as [H1 H2]. apply negb_true_iff in H1. auto.
 Qed.
 
+(* the Begins that database/sql gave up (it repeats them on another connection) *)
+Definition retries (t : nat) (R : list logent) : Prop :=
+  Forall (fun e => etid e = t /\ ecall e = CBeginRetry) R.
+
+Lemma retries_not_lost : forall t R, retries t R -> count lostb R = 0%nat.
+Proof.
+  intros t R H. unfold count. induction H as [|e R [_ He] _ IH]; [reflexivity|].
+  cbn. unfold lostb, ent_end. rewrite He. cbn. exact IH.
+Qed.
+
+Lemma begin_all_spec : forall fuel t rc cn orc o v c l orc',
+  begin_all fuel t rc cn orc = (o, v, c, l, orc') ->
+  exists R, l = R ++ [mkEnt t cn CBegin o v] /\ retries t R /\ follows orc l orc' /\ o <> OPanic.
+Proof.
+  induction fuel as [|fuel IH]; intros t rc cn orc o v c l orc' H; cbn [begin_all] in H.
+  - exists []. destruct (drv_spec _ _ _ _ _ _ _ _ _ H) as (-> & Ho & _). destruct (drv_own_follows _ _ _ _ _ _ _ _ _ H) as [_ Hf].
+    split; [reflexivity|]. split; [constructor|]. split; [exact Hf|]. rewrite Ho. apply honoured_not_end. reflexivity.
+  - destruct (retried (fst (pop orc))) eqn:Er.
+    + destruct (begin_all fuel t (tl rc) cn (snd (pop orc))) as [[[[o2 v2] c2] l2] o2'] eqn:E2.
+      inversion H; subst. destruct (IH _ _ _ _ _ _ _ _ _ E2) as (R & -> & HR & Hf & Ho).
+      exists (mkEnt t (hd cn rc) CBeginRetry OFail (rval (fst (pop orc))) :: R).
+      split; [reflexivity|]. split; [constructor; [split; reflexivity | exact HR]|]. split; [|exact Ho].
+      unfold retried in Er. constructor; cbn [ecall eout eval]; [| |exact Hf].
+      * unfold honoured in *. cbn [is_end] in *. destruct (rout (fst (pop orc))); try discriminate; reflexivity.
+      * reflexivity.
+    + exists []. destruct (drv_spec _ _ _ _ _ _ _ _ _ H) as (-> & Ho & _). destruct (drv_own_follows _ _ _ _ _ _ _ _ _ H) as [_ Hf].
+      split; [reflexivity|]. split; [constructor|]. split; [exact Hf|]. rewrite Ho. apply honoured_not_end. reflexivity.
+Qed.
+
 (* one quantum preserves the invariant; the calls it makes are the transaction's own, on its
-   connection, answered by the script in order; a connection is lost iff an end call panicked *)
-Lemma tstep_spec : forall rf g t sc st tr orc st' l orc' leak,
+   connection (but for the Begins database/sql gave up), answered by the script in order; a
+   connection is lost iff an end call panicked *)
+Lemma tstep_spec_started : forall rf g t sc st tr orc st' l orc' leak,
+  st <> TIdle ->
   tinv rf g sc st tr -> tstep_with rf g t sc st orc = (st', l, orc', leak) ->
   tinv rf g sc st' (tr ++ l) /\ own t (sconn sc) l /\ follows orc l orc' /\
   leakZ leak = Z.of_nat (count lostb l).
 Proof.
-  intros rf g t sc st tr orc st' l orc' leak Hinv H. destruct st as [|k rest canc done|r].
-  - (* TIdle *)
-    cbn in Hinv. subst tr. cbn [tstep_with] in H. cbn [app].
-    assert (Href : forall e, sdead sc = true \/ (sdead sc = false /\ sbrk sc = false) \/
-                      (sdead sc = false /\ sbrk sc = true /\ sopen sc = false) ->
-                   e = refusal sc ->
-                   (TDone (mkRes 0 None (RetErr e) false), @nil logent, orc, false) = (st', l, orc', leak) ->
-                   tinv rf g sc st' l /\ own t (sconn sc) l /\ follows orc l orc' /\ leakZ leak = Z.of_nat (count lostb l)).
-    { intros e Hc -> Heq. inversion Heq; subst.
-      split; [|split; [constructor | split; [constructor | reflexivity]]].
-      left. split; [reflexivity|]. split; [|reflexivity]. unfold let_through.
-      destruct Hc as [-> | [[-> ->] | (-> & -> & ->)]]; reflexivity. }
-    destruct (sdead sc) eqn:Hd; [apply (Href ECanceled); auto; unfold refusal; rewrite Hd; reflexivity|].
-    destruct (sbrk sc) eqn:Hb; cbn [negb] in H;
-      [|apply (Href EUnavailable); auto; unfold refusal; rewrite Hd, Hb; reflexivity].
-    destruct (sopen sc) eqn:Ho; cbn [negb] in H;
-      [|apply (Href ENoConn); auto; unfold refusal; rewrite Hd, Hb; reflexivity].
-    assert (Hlt : let_through sc = true) by (unfold let_through; rewrite Hd, Hb, Ho; reflexivity).
-    destruct (drv t (sconn sc) CBegin orc) as [[[o c] l0] o1] eqn:E.
-    destruct (drv_own_follows _ _ _ _ _ _ _ _ E) as [Hown Hf]. destruct (drv_spec _ _ _ _ _ _ _ _ E) as (El0 & Eo & _).
-    assert (Hnl : count lostb l0 = 0%nat) by (subst l0; reflexivity).
-    destruct o; inversion H; subst st' l orc' leak; (split; [|split; [exact Hown|split; [exact Hf|rewrite Hnl; reflexivity]]]).
-    + exists (mkEnt t (sconn sc) CBegin OOk), [], []. rewrite El0.
-      split; [split; reflexivity|]. split; [split; constructor|]. split; [reflexivity|]. split; [reflexivity|].
-      split; [exact Hlt | reflexivity].
-    + right; left. exists (mkEnt t (sconn sc) CBegin OFail). rewrite El0.
-      split; [reflexivity|]. split; [reflexivity|]. split; [discriminate|]. split; [exact Hlt | reflexivity].
-    + exfalso. symmetry in Eo. revert Eo. apply honoured_not_end. reflexivity.
+  intros rf g t sc st tr orc st' l orc' leak Hni Hinv H. destruct st as [|k rest canc done|r].
+  - congruence.
   - (* TBody *)
     pose proof Hinv as Hinv0.
     destruct Hinv as (b & S & pre & Hb & HS & Hsteps & Hkp & Hlt & Htr).
     assert (Hk0 : 0 <= k) by lia.
     destruct rest as [|s rest].
     + (* the end of the body *)
-      cbn [tstep_with] in H.
+      unfold tstep_with in H; cbn [tstep_fin] in H.
       assert (Hkn : k <= k <= nsteps sc).
       { unfold nsteps. rewrite Hsteps, app_nil_r. lia. }
       destruct (leave_inv _ _ _ _ _ _ _ _ _ _ _ _ _ _ _ k Hinv0 Hk0 Hkn H) as [Hi Hl].
       destruct (finish_spec _ _ _ _ _ _ _ _ _ _ _ H) as (Ho & Hf & _). auto.
-    + cbn [tstep_with] in H.
+    + unfold tstep_with in H; cbn [tstep_fin] in H.
       destruct (do_action t sc k (sact s) canc done orc) as [[[[[r l1] o1] canc1] done1] leak1] eqn:Ea.
       destruct (do_action_spec _ _ _ _ _ _ _ _ _ _ _ _ _ Ea) as (Ho1 & Hf1 & Hd1 & Hd0).
       pose proof (nsteps_split _ _ _ _ Hsteps) as Hns.
@@ -391,6 +398,86 @@ Proof.
            destruct (Hfd1 eq_refl) as (_ & _ & Hx). discriminate.
       * inversion H; subst st' l orc' leak. auto.
   - (* TDone *)
-    cbn in H. inversion H; subst. rewrite app_nil_r.
+    unfold tstep_with in H; cbn [tstep_fin] in H. inversion H; subst. rewrite app_nil_r.
     split; [exact Hinv|]. split; [constructor|]. split; [constructor | reflexivity].
+Qed.
+
+Lemma tstep_spec : forall rf g t sc st tr orc st' l orc' leak,
+  tinv rf g sc st tr -> tstep_with rf g t sc st orc = (st', l, orc', leak) ->
+  exists R l', l = R ++ l' /\ retries t R /\
+    tinv rf g sc st' (tr ++ l') /\ own t (sconn sc) l' /\ follows orc l orc' /\
+    leakZ leak = Z.of_nat (count lostb l).
+Proof.
+  intros rf g t sc st tr orc st' l orc' leak Hinv H.
+  destruct st as [|k rest canc done|r].
+  2: { assert (Hni : TBody k rest canc done <> TIdle) by discriminate.
+       destruct (tstep_spec_started _ _ _ _ _ _ _ _ _ _ _ Hni Hinv H) as (H1 & H2 & H3 & H4).
+       exists [], l. split; [reflexivity|]. split; [constructor|]. auto. }
+  2: { assert (Hni : TDone r <> TIdle) by discriminate.
+       destruct (tstep_spec_started _ _ _ _ _ _ _ _ _ _ _ Hni Hinv H) as (H1 & H2 & H3 & H4).
+       exists [], l. split; [reflexivity|]. split; [constructor|]. auto. }
+  (* TIdle *)
+  cbn in Hinv. subst tr. unfold tstep_with in H. cbn [tstep_fin] in H. cbn [app].
+  assert (Href : forall e, sdead sc = true \/ (sdead sc = false /\ sbrk sc = false) \/
+                    (sdead sc = false /\ sbrk sc = true /\ sopen sc = false) ->
+                 e = refusal sc ->
+                 (TDone (mkRes 0 None (RetErr e) false), @nil logent, orc, false) = (st', l, orc', leak) ->
+                 exists R l', l = R ++ l' /\ retries t R /\
+                   tinv rf g sc st' l' /\ own t (sconn sc) l' /\ follows orc l orc' /\ leakZ leak = Z.of_nat (count lostb l)).
+  { intros e Hc -> Heq. inversion Heq; subst. exists [], []. split; [reflexivity|]. split; [constructor|].
+    split; [|split; [constructor | split; [constructor | reflexivity]]].
+    left. split; [reflexivity|]. split; [|reflexivity]. unfold let_through.
+    destruct Hc as [-> | [[-> ->] | (-> & -> & ->)]]; reflexivity. }
+  destruct (sdead sc) eqn:Hd; [apply (Href ECanceled); auto; unfold refusal; rewrite Hd; reflexivity|].
+  destruct (sbrk sc) eqn:Hb; cbn [negb] in H;
+    [|apply (Href EUnavailable); auto; unfold refusal; rewrite Hd, Hb; reflexivity].
+  destruct (sopen sc) eqn:Ho; cbn [negb] in H;
+    [|apply (Href ENoConn); auto; unfold refusal; rewrite Hd, Hb; reflexivity].
+  assert (Hlt : let_through sc = true) by (unfold let_through; rewrite Hd, Hb, Ho; reflexivity).
+  destruct (begin_all max_begin_retries t (sretry sc) (sconn sc) orc) as [[[[o v] c] l0] o1] eqn:E.
+  destruct (begin_all_spec _ _ _ _ _ _ _ _ _ _ E) as (R & El0 & HR & Hf & Hno).
+  assert (Hnl : count lostb l0 = 0%nat).
+  { rewrite El0, count_app, (retries_not_lost _ _ HR). unfold count, lostb, ent_end. reflexivity. }
+  assert (Hown : own t (sconn sc) [mkEnt t (sconn sc) CBegin o v]) by (repeat constructor).
+  destruct o; inversion H; subst st' l orc' leak.
+  - exists R, [mkEnt t (sconn sc) CBegin OOk v].
+    split; [exact El0|]. split; [exact HR|]. split; [|split; [exact Hown|split; [exact Hf|rewrite Hnl; reflexivity]]].
+    exists (mkEnt t (sconn sc) CBegin OOk v), [], [].
+    split; [split; reflexivity|]. split; [split; constructor|]. split; [reflexivity|]. split; [reflexivity|].
+    split; [exact Hlt | reflexivity].
+  - exists R, [mkEnt t (sconn sc) CBegin OFail v].
+    split; [exact El0|]. split; [exact HR|]. split; [|split; [exact Hown|split; [exact Hf|rewrite Hnl; reflexivity]]].
+    right; left. exists (mkEnt t (sconn sc) CBegin OFail v).
+    split; [reflexivity|]. split; [reflexivity|]. split; [discriminate|]. split; [exact Hlt | reflexivity].
+  - congruence.
+Qed.
+
+(* a transaction's own trace never contains a Begin that database/sql gave up *)
+Definition noretry (l : list logent) : Prop := Forall (fun e => is_retry (ecall e) = false) l.
+
+Lemma stmt_noretry : forall e, ent_stmt e = true -> is_retry (ecall e) = false.
+Proof. intros e H. unfold ent_stmt in H. destruct (ecall e); try discriminate; reflexivity. Qed.
+Lemma end_noretry : forall e, ent_end e = true -> is_retry (ecall e) = false.
+Proof. intros e H. unfold ent_end in H. destruct (ecall e); try discriminate; reflexivity. Qed.
+Lemma begin_noretry : forall e, ecall e = CBegin -> is_retry (ecall e) = false.
+Proof. intros e H. rewrite H. reflexivity. Qed.
+
+Lemma stmts_noretry : forall k S, stmts_lt k S -> noretry S.
+Proof.
+  intros k S [H _]. eapply Forall_impl; [|exact H]. cbn beta. intros e [He _]. apply stmt_noretry. exact He.
+Qed.
+
+Lemma tinv_noretry : forall rf g sc st tr, tinv rf g sc st tr -> noretry tr.
+Proof.
+  intros rf g sc st tr H. destruct st as [|k rest canc done|r]; cbn in H.
+  - subst tr. constructor.
+  - destruct H as (b & S & pre & [Hb _] & HS & _ & _ & _ & Htr). destruct done.
+    + destruct Htr as (e & -> & He & _). constructor; [apply begin_noretry; exact Hb|].
+      apply Forall_app. split; [eapply stmts_noretry; exact HS|]. constructor; [apply end_noretry; exact He | constructor].
+    + subst tr. constructor; [apply begin_noretry; exact Hb | eapply stmts_noretry; exact HS].
+  - destruct H as [(-> & _) | [(b & -> & Hb & _) | (b & S & e & o & -> & [Hb _] & HS & He & _)]].
+    + constructor.
+    + constructor; [apply begin_noretry; exact Hb | constructor].
+    + constructor; [apply begin_noretry; exact Hb|].
+      apply Forall_app. split; [eapply stmts_noretry; exact HS|]. constructor; [apply end_noretry; exact He | constructor].
 Qed.
